@@ -87,7 +87,13 @@ async def roundtrip(version, nv3, ni, node, prior=None, refuse=None):
             out["prior_fc"], out["prior_keys"] = st.nwk_fc, sum(1 for k in st.keys if k is not None)
         w_ni, w_node = copy.deepcopy(ni), copy.deepcopy(node)
         out["mfg_burnt_before"] = st.mfg_custom is not None
-        if refuse is not None:
+        if refuse == "nwk-counter":
+            # the NCP refuses to have its network-key frame counter set: the restore fails (loudly), or what is read back is what
+            # was written - a restore that reports success with another counter is neither
+            import bellows.types as _t
+            st.refuse_values = {int(_t.EzspValueId.VALUE_NWK_FRAME_COUNTER)}
+            out["refused_counter"] = True
+        elif refuse is not None:
             st.refuse_partner = bytes(ni.key_table[refuse].partner_ieee.serialize())
         await app.write_network_info(network_info=w_ni, node_info=w_node)
         out["written_stack_specific"] = w_ni.stack_specific
@@ -109,6 +115,8 @@ def oracle(version, nv3, ni, node, o):
     import bellows.types as t
     import zigpy.types as zt
 
+    if o["result"] != "ok" and o.get("refused_counter"):
+        return None     # the fault was injected: a restore that fails loudly is an acceptable outcome
     if o["result"] != "ok":
         return ("round trip did not complete: " + o["result"], "crash")
     L = o["loaded"]
@@ -240,6 +248,12 @@ def cases(ctx):
                     if i % 8 == 1:
                         prior = (prior[0], prior[1], "loaded")   # ... on which this very application object has been running
                 cs.append((v, nv3, mode, ni, node, prior, None))
+            # the NCP refuses to have its frame counter set (a fault at one step of the restore)
+            if v >= 5:
+                ni, node = rand_settings(rng, v, "wellknown")
+                if ni.network_key.tx_counter == 0:
+                    ni.network_key.tx_counter = 0x1234
+                cs.append((v, nv3, "wellknown", ni, node, None, "nwk-counter"))
             # a backup that comes from another adapter: it says so in its metadata (the capability recorded there is the OTHER
             # adapter's), and / or it carries the owner's consent to burn the address once where the token cannot be rewritten
             for j in range(ctx.n(2, 6)):
@@ -273,7 +287,9 @@ def run(ctx):
     lines, impl = [], []
     for i, (v, nv3, mode, ni, node, prior, refuse) in enumerate(cs):
         o = asyncio.run(roundtrip(v, nv3, ni, node, prior, refuse))
-        if refuse is not None:
+        if refuse == "nwk-counter":
+            ctx.count("ncp-refuses-the-frame-counter")
+        elif refuse is not None:
             # judged (and modelled) as the backup without the key the NCP would not take
             ctx.count("ncp-refuses-one-link-key")
             refused = ni.key_table[refuse]
